@@ -223,7 +223,7 @@ static std::string raw_id(int idk, const std::string& p, const std::string& ext)
     case I_SAMEDIR: return "a" + p + "." + ext;
     case I_SUBDIR: return "sub/b" + p + "." + ext;
     case I_PARENT: return "../c" + p + "." + ext;
-    case I_FILEURL: return "file:///v/d" + p + "." + ext;
+    case I_FILEURL: return "file:///v/d%2541" + p + "." + ext;   // names the file /v/d%41<p>.<ext>: an escaped percent sign must be decoded once, not twice
     case I_HTTP: return "http://h/e" + p + "." + ext;
     }
     return "n" + p + "." + ext;  // nested: relative id used inside an entity that lives in /v/sub/
